@@ -42,6 +42,8 @@ def gen_case(rng, tier, index):
     if rng.random() < 0.4:
         # alignment entries on input blocks (requirements that hold)
         case["align_seed"] = rng.randrange(1 << 30)
+    # every unknown return target is one shared proxy
+    case["shared_return_proxy"] = rng.random() < 0.4
     if rng.random() < 0.2:
         from . import c06
         case["newfuncs"] = [c06.new_function(rng, case, k)
